@@ -11,7 +11,7 @@ last_marks = {}
 
 def build_driver():
     return vlib.build_ocaml_driver("c08_driver", os.path.join(vlib.COQ, "extracted"),
-                                   os.path.join(C08_DIR, "driver", "c08_driver.ml"), only=["c08_model", "c09_model"])
+                                   os.path.join(C08_DIR, "driver", "c08_driver.ml"), only=["c08_model", "c09_model", "c10_model"])
 
 
 def build_harness(ctx, cmd):
@@ -33,11 +33,16 @@ def harness_env():
     return env
 
 
+last_import = {}
+
+
 def run_driver(exe, cases, timeout=2400):
     """Returns (compared, mismatches:int, by_kind:{what: [lines]}, raw log)."""
     rc, log = vlib.sh([exe, cases], timeout=timeout)
     m = re.search(r"CASES (\d+) COMPARED (\d+) MISMATCHES (\d+)", log)
-    global last_skeleton, last_marks
+    global last_skeleton, last_marks, last_import
+    mi = re.search(r"IMPORTCMP (\d+) OK (\d+) ERR (\d+) KINDOK (\d+) UNMAPPED (\d+) KINDOUTSIDE (\d+)", log)
+    last_import = dict(zip(("compared", "ok", "err", "kind_ok", "unmapped", "kind_outside_model_domain"), map(int, mi.groups()))) if mi else {}
     ms = re.search(r"SKELETON (\d+)", log)
     last_skeleton = int(ms.group(1)) if ms else 0
     me = re.search(r"ENDMARK (\w+)", log)
